@@ -21,10 +21,10 @@ static u8 tok_alloc, tok_ctor, tok_tbb;     /* exception type tokens: allocator'
 /* exceptions are thrown from static objects (header {type, refcount} + payload, like rt/vp.h's heap objects): the pending
    pointer vp_exc is then an address cbmc's symex folds against null, so only the real path after a throw is executed
    (with a malloc'ed object both outcomes of every `if (vp_exc)` were explored: path explosion) */
-static u64 exc_obj[8][4]; static unsigned n_thrown;
+static u64 exc_obj[2][4]; static unsigned n_thrown;      /* at most one exception is in flight or being handled at any time */
 static void throw_static(u8* ti) {
-  VP_ASSERT(n_thrown < 8, "HARNESS: too many throws"); __CPROVER_assume(n_thrown < 8);
-  u8* p = (u8*)&exc_obj[n_thrown++][2];
+  VP_ASSERT(vp_exc == 0, "exception thrown while another one is pending");
+  u8* p = (u8*)&exc_obj[n_thrown++ & 1][2];
   VP_EXC_TYPE(p) = ti; VP_EXC_REFS(p) = 1; vp_exc = p; vp_exc_thrown++;
 }
 static int armed, fault_kind; static unsigned fault_at, n_allocs, n_ctors, n_faults, n_tbb_throws;
@@ -67,7 +67,7 @@ u8* vp_alloc_tab(u64 n) {
 }
 void vp_dealloc_tab(u8* p, u64 n) { VP_ASSERT(tb_used && !tb_freed && p == (u8*)&tpool[0] && n == 64 * 8, "table deallocated twice / not an allocated table"); tb_freed = 1; }
 /* ---- element observers */
-#define MAXLOG 24
+#define MAXLOG 40
 static u8* log_addr[MAXLOG]; static u32 log_val[MAXLOG]; static unsigned n_log, d_count[MAXLOG]; static int destroying;
 void vp_construct(u8* a, u32 val) {
   VP_ASSERT(in_live(a), "element constructed outside the storage handed out by the allocator");
@@ -132,24 +132,25 @@ static u32 do_op(int op, u64 arg, u32 val) {
 }
 int main(void) {
   vp_vec_init(&vec);
-  for (unsigned i = 0; i < PRE; i++) VP_ASSERT(do_op(1, 0, 7) == 0, "healthy push_back threw");
+  u32 v0 = (u32)vp_nd(), v1 = (u32)vp_nd(), v2 = (u32)vp_nd();   /* element values: symbolic data, never control */
+  for (unsigned i = 0; i < PRE; i++) VP_ASSERT(do_op(1, 0, v0) == 0, "healthy push_back threw");
   check_state(0);
   unsigned log0 = n_log;
   /* OP1 with the fault */
   fault_kind = FK; fault_at = FAULTK;   /* concrete per query: symbolic k makes symex explode (diverging paths x loop unwinding) */ armed = 1;
-  u32 r1 = do_op(OP1, ARG1, 100);
+  u32 r1 = do_op(OP1, ARG1, v1);
   armed = 0;
   VP_ASSERT(r1 == (n_faults != 0), "the injected exception must reach the caller of the failing call, and nothing else may throw");
   if (!n_faults && OP1 == 0) VP_ASSERT(n_log == log0 + ARG1, "grow_by without a fault did not construct delta elements");
   check_state(0);
   /* follow-up calls with a healthy allocator and non-throwing constructors: each one works or throws */
   unsigned logf = n_log;
-  u32 r2 = do_op(OP2, ARG2, 200);
+  u32 r2 = do_op(OP2, ARG2, v2);
   if (!r2 && OP2 == 1) VP_ASSERT(n_log == logf + 1, "push_back returned normally without constructing its element");
   check_state(0);
   for (unsigned f = 0; f < NFOLLOW; f++) {
     unsigned l = n_log;
-    u32 r = do_op(1, 0, 300 + f);
+    u32 r = do_op(1, 0, v2 + 1 + f);
     VP_ASSERT(r || n_log == l + 1, "push_back returned normally without constructing its element");
     VP_ASSERT(!r || n_log == l, "push_back threw although it constructed its element");
   }
